@@ -245,87 +245,40 @@ def ev_spell_single(case, rec):
 
 
 # --- overlapping requests: every interleaving of two requests at the line granularity of the application module ---------
-def gen_threads(tier, seed):
-    qs = {
-        'inv_dd': ('/vincinv', {'lat1': '-37.95103342', 'lon1': '144.42486789', 'lat2': '-37.65282114', 'lon2': '143.92649553'}),
-        'inv_dms_dms': ('/vincinv', {'lat1': '-37.57037203', 'lon1': '144.25295244', 'lat2': '-37.39101561', 'lon2': '143.55353839',
-                                     'from_angle_type': 'dms', 'to_angle_type': 'dms'}),
-        'inv_dd_dms': ('/vincinv', {'lat1': '10.5', 'lon1': '20.25', 'lat2': '-12.75', 'lon2': '40.5', 'to_angle_type': 'dms'}),
-        'dir_dd': ('/vincdir', {'lat1': '-37.95103342', 'lon1': '144.42486789', 'azimuth1to2': '306.8681592', 'ell_dist': '54972.271'}),
-        'dir_dms_dms': ('/vincdir', {'lat1': '-37.57037203', 'lon1': '144.25295244', 'azimuth1to2': '306.520537', 'ell_dist': '54972.271',
-                                     'from_angle_type': 'dms', 'to_angle_type': 'dms'}),
-        'dir_dms_dd': ('/vincdir', {'lat1': '45.3', 'lon1': '-0.3', 'azimuth1to2': '90.3', 'ell_dist': '1e6', 'from_angle_type': 'dms'}),
-        'index': ('/', {}),
-    }
-    names = sorted(qs)
-    bound = 2 if tier == 'thorough' else 1
-    for i, a in enumerate(names):
-        for b in names[i:]:
-            if a == b and a == 'index':
-                continue
-            yield {'reqs': [list(qs[a]), list(qs[b])], 'names': [a, b], 'bound': bound}
-    if tier == 'thorough':
-        yield {'reqs': [list(qs['inv_dd']), list(qs['inv_dms_dms']), list(qs['dir_dms_dd'])], 'names': ['inv_dd', 'inv_dms_dms', 'dir_dms_dd'], 'bound': 1}
+from gpmc import threads as _thr
+_TQ = {
+    'inv_dd': ('/vincinv', {'lat1': '-37.95103342', 'lon1': '144.42486789', 'lat2': '-37.65282114', 'lon2': '143.92649553'}),
+    'inv_dms_dms': ('/vincinv', {'lat1': '-37.57037203', 'lon1': '144.25295244', 'lat2': '-37.39101561', 'lon2': '143.55353839',
+                                 'from_angle_type': 'dms', 'to_angle_type': 'dms'}),
+    'inv_dd_dms': ('/vincinv', {'lat1': '10.5', 'lon1': '20.25', 'lat2': '-12.75', 'lon2': '40.5', 'to_angle_type': 'dms'}),
+    'dir_dd': ('/vincdir', {'lat1': '-37.95103342', 'lon1': '144.42486789', 'azimuth1to2': '306.8681592', 'ell_dist': '54972.271'}),
+    'dir_dms_dms': ('/vincdir', {'lat1': '-37.57037203', 'lon1': '144.25295244', 'azimuth1to2': '306.520537', 'ell_dist': '54972.271',
+                                 'from_angle_type': 'dms', 'to_angle_type': 'dms'}),
+    'dir_dms_dd': ('/vincdir', {'lat1': '45.3', 'lon1': '-0.3', 'azimuth1to2': '90.3', 'ell_dist': '1e6', 'from_angle_type': 'dms'}),
+    'index': ('/', {}),
+}
 
 
-def ev_threads(case, rec):
-    import os
-    from gpmc import sched
-    from gpmc.core import REPO
-    c = client()
-    app = _APP['app']
-    files = {os.path.realpath(os.path.join(REPO, 'api', 'app.py'))}
-    reqs = case['reqs']
-    # reference: each request alone
-    ref = []
-    for path, q in reqs:
-        r = c.get(path, query_string=q)
-        ref.append((r.status_code, r.data))
-    out = {'bad': [], 'outcomes': set(), 'n': 0}
+def _treq(name):
+    path, q = _TQ[name]
 
-    def run_one(prefix):
-        bodies = [(lambda path=path, q=q: (lambda r: (r.status_code, r.data))(app.test_client().get(path, query_string=q))) for path, q in reqs]
-        ex = sched.Execution(bodies, files, prefix).run()
-        res = []
-        for i in range(len(reqs)):
-            res.append(('error', repr(ex.errors[i])[:200]) if ex.errors[i] is not None else ex.results[i])
-        return {'points': ex.points, 'choices': ex.choices, 'res': res}
+    def factory():
+        from api.app import app
 
-    def check(ex):
-        out['n'] += 1
-        out['outcomes'].add(repr(ex['res']))
-        wrong = [i for i, r in enumerate(ex['res']) if tuple(r) != tuple(ref[i])]
-        if wrong and len(out['bad']) < 3:
-            out['bad'].append({'schedule': list(ex['choices']), 'request': case['names'][wrong[0]],
-                               'got': [ex['res'][wrong[0]][0], ex['res'][wrong[0]][1][:200].decode('latin1') if isinstance(ex['res'][wrong[0]][1], bytes) else ex['res'][wrong[0]][1]],
-                               'expected': [ref[wrong[0]][0], ref[wrong[0]][1][:200].decode('latin1')]})
-    if 'schedule' in case:
-        ex = run_one(case['schedule'])
-        check(ex)
-        st = {'executions': 1, 'max_points': len(ex['points'])}
-    else:
-        st = sched.explore(run_one, case['bound'], check)
-    rec.transitions += st['executions'] * len(reqs)
-    rec.nontriv((tuple(case['names']), case['bound']))
-    rec.state(('threads', tuple(case['names']), len(out['outcomes'])))
-    rec.dev('schedules', st['executions'])
-    rec.dev('scheduling_points', st['max_points'])
-    if st['max_points'] < 4 and 'schedule' not in case:
-        raise HarnessError('no scheduling points inside the application module: the requests were not interleaved')
-    if out['bad']:
-        b = out['bad'][0]
-        rec.fail('overlapping requests %s: the answer to %s is not the answer it gets alone' % (case['names'], b['request']),
-                 site='api:threads', observed=b['got'], expected=b['expected'], case=dict(case, schedule=b['schedule']),
-                 coords={'names': case['names']})
-        rec.outcome('threads-bad')
-    else:
-        rec.outcome('threads-ok')
-    rec.sample({'names': case['names'], 'schedules': st['executions'], 'scheduling_points': st['max_points'], 'distinct_outcomes': len(out['outcomes'])})
+        def go():
+            r = app.test_client().get(path, query_string=q)
+            return [r.status_code, r.data.decode('latin1')]
+        return go
+    return factory
+
+
+T_CALLS = {n: _treq(n) for n in _TQ}
+gen_threads, ev_threads = _thr.make(T_CALLS, ['api/app.py'], 'api:threads', triple=('inv_dd', 'inv_dms_dms', 'dir_dms_dd'))
 
 
 SUBCHECKS = [
     Sub('spellings', gen_spell, ev_spell_single, chunk=1, floor=100, guard=False),
-    Sub('threads', gen_threads, ev_threads, chunk=1, floor=10, poison=False),
+    Sub('threads', gen_threads, ev_threads, chunk=1, floor=10, poison=False, fresh=True),
     Sub('vincdir', gen_dir, ev_dir, chunk=1, floor=500, guard=True, envs=3),
     Sub('vincinv', gen_inv, ev_inv, chunk=4, floor=500, guard=True, envs=3),
     Sub('index', gen_index, ev_index, chunk=1, floor=1, parallel=False, guard=True),
